@@ -1,6 +1,8 @@
 // C14 implementation driver: same case protocol as ocaml/c14_driver.ml, real libtorrent code.
 //   AC/AC6/AB/AN   AddressList parsers on exact-size heap buffers (ASan redzone right after the payload)
 //   PL             PeerList::insert_available / insert_pex_list / AddressList::sort_and_unique
+//   PX             ProtocolExtension::parse_ut_pex' two steps on a real PeerList: static_map_read_bencode(ExtPEXMessage)
+//                  + PeerList::insert_pex_list, from the raw extension payload
 //   U              TrackerUdp + UdpRouter: real send_event(), datagrams delivered through real UDP sockets on
 //                  loopback, UdpRouter::event_read() called directly on the harness thread
 //   H              TrackerHttp::receive_done() on a reply body placed in the tracker's stream
@@ -27,6 +29,7 @@
 #include "download/available_list.h"
 #include "net/address_list.h"
 #include "net/curl_get.h"
+#include "protocol/extensions.h"
 #include "thread_main.h"
 #include "tracker/thread_tracker.h"
 #include "tracker/tracker_http.h"
@@ -107,6 +110,28 @@ static std::string run_pl(const std::vector<std::string>& t) {
     else if (op == "B") l.sort();
     else if (op != "R") return "BADCASE";
     add_ret(pl.insert_available(&l));
+  }
+  auto av = pl.m_available_list.get();
+  return "OK ret=" + (rets.empty() ? std::string("-") : rets) + " avail=" + show_addrs(av->begin(), av->end());
+}
+
+// ------------------------------------------------------------------ ut_pex from the raw payload
+
+static std::string run_px(const std::vector<std::string>& t) {
+  torrent::PeerList pl;
+  pl.m_available_list->set_max_size(std::stoul(t.at(1)));
+  std::string rets;
+  for (size_t i = 2; i < t.size(); i++) {
+    exact_buf b(unhex(t[i]));
+    std::string r;
+    try {
+      torrent::ExtPEXMessage message;
+      torrent::static_map_read_bencode(b.p, b.p + b.n, message);
+      if (!message[torrent::key_pex_added].is_raw_string()) r = "~";
+      else r = std::to_string(pl.insert_pex_list(message[torrent::key_pex_added].as_raw_string()));
+    } catch (torrent::bencode_error&) { r = "REJECT"; }
+    if (!rets.empty()) rets += ',';
+    rets += r;
   }
   auto av = pl.m_available_list.get();
   return "OK ret=" + (rets.empty() ? std::string("-") : rets) + " avail=" + show_addrs(av->begin(), av->end());
@@ -370,6 +395,8 @@ int main() {
         std::cout << "OK " << show_addrs(l.begin(), l.end()) << "\n";
       } else if (t.size() >= 2 && t[0] == "PL") {
         std::cout << run_pl(t) << "\n";
+      } else if (t.size() >= 2 && t[0] == "PX") {
+        std::cout << run_px(t) << "\n";
       } else if (t.size() >= 4 && t[0] == "U") {
         need_runtime();
         std::cout << run_udp(t) << "\n";
